@@ -222,6 +222,8 @@ def check_entry(ctx):
                 a = pygaps.Adsorbate.find(aname)
                 used = dict(T=pr['T'], M=a.molar_mass(), rho=a.liquid_density(pr['T']), gamma=a.surface_tension(pr['T']))
             for gname, p in grids(ctx.scale).items():
+                if gname == 'long 1200' and prname != 'N2@77':
+                    continue
                 vol = 0.05 + 0.8 * p ** 2
                 for branch, stored in [(b_, s_) for b_ in ('ads', 'des') for s_ in STORED]:
                     pp, vv = (p, vol) if branch == 'ads' else (p[::-1], vol[::-1])
